@@ -457,6 +457,9 @@ def keq(a, b):
         raise Unknown(f"equality {a!r} == {b!r}")
 
 
+SYM_ATOMS_INJECTIVE = False   # harness promise: atoms with different keys denote different strings
+
+
 def symstr_eq(a, b):
     pa = a.parts if isinstance(a, SymStr) else ([a] if isinstance(a, str) and a else [])
     pb = b.parts if isinstance(b, SymStr) else ([b] if isinstance(b, str) and b else [])
@@ -466,6 +469,12 @@ def symstr_eq(a, b):
     nb = tuple(p if isinstance(p, str) else p.key() for p in pb)
     if na == nb:
         return True
+    if SYM_ATOMS_INJECTIVE and len(na) == len(nb):
+        same_shape = all((isinstance(x, str) and isinstance(y, str) and x == y) or (not isinstance(x, str) and not isinstance(y, str)) for x, y in zip(na, nb))
+        if same_shape:
+            return False   # same literal skeleton, some atom differs
+    if all(isinstance(x, str) for x in na) and all(isinstance(y, str) for y in nb):
+        return False
     raise Unknown("equality of distinct symbolic strings")
 
 
